@@ -1,6 +1,38 @@
--- shard 20 of the closeness / tick-gap sweep (C06 (c), (e)): |tick| in [655360, 688128)
+-- shard 20 of the closeness / tick-gap sweep (C06 (c), (e)): |tick| in [655360, 688128), 16 blocks of 2^11
 import Proofs.Lemmas.ClosePred
 namespace Demeter.TickClose
 set_option maxRecDepth 100000 in
-theorem close_shard_20 : chkN closeSweepPred 655360 shardBits = true := by decide +kernel
+theorem close_blk_655360 : chkN closeSweepPred 655360 11 = true := by decide +kernel
+set_option maxRecDepth 100000 in
+theorem close_blk_657408 : chkN closeSweepPred 657408 11 = true := by decide +kernel
+set_option maxRecDepth 100000 in
+theorem close_blk_659456 : chkN closeSweepPred 659456 11 = true := by decide +kernel
+set_option maxRecDepth 100000 in
+theorem close_blk_661504 : chkN closeSweepPred 661504 11 = true := by decide +kernel
+set_option maxRecDepth 100000 in
+theorem close_blk_663552 : chkN closeSweepPred 663552 11 = true := by decide +kernel
+set_option maxRecDepth 100000 in
+theorem close_blk_665600 : chkN closeSweepPred 665600 11 = true := by decide +kernel
+set_option maxRecDepth 100000 in
+theorem close_blk_667648 : chkN closeSweepPred 667648 11 = true := by decide +kernel
+set_option maxRecDepth 100000 in
+theorem close_blk_669696 : chkN closeSweepPred 669696 11 = true := by decide +kernel
+set_option maxRecDepth 100000 in
+theorem close_blk_671744 : chkN closeSweepPred 671744 11 = true := by decide +kernel
+set_option maxRecDepth 100000 in
+theorem close_blk_673792 : chkN closeSweepPred 673792 11 = true := by decide +kernel
+set_option maxRecDepth 100000 in
+theorem close_blk_675840 : chkN closeSweepPred 675840 11 = true := by decide +kernel
+set_option maxRecDepth 100000 in
+theorem close_blk_677888 : chkN closeSweepPred 677888 11 = true := by decide +kernel
+set_option maxRecDepth 100000 in
+theorem close_blk_679936 : chkN closeSweepPred 679936 11 = true := by decide +kernel
+set_option maxRecDepth 100000 in
+theorem close_blk_681984 : chkN closeSweepPred 681984 11 = true := by decide +kernel
+set_option maxRecDepth 100000 in
+theorem close_blk_684032 : chkN closeSweepPred 684032 11 = true := by decide +kernel
+set_option maxRecDepth 100000 in
+theorem close_blk_686080 : chkN closeSweepPred 686080 11 = true := by decide +kernel
+theorem close_shard_20 : chkN closeSweepPred 655360 shardBits = true :=
+  (chkN_join _ 655360 14 (chkN_join _ 655360 13 (chkN_join _ 655360 12 (chkN_join _ 655360 11 close_blk_655360 close_blk_657408) (chkN_join _ 659456 11 close_blk_659456 close_blk_661504)) (chkN_join _ 663552 12 (chkN_join _ 663552 11 close_blk_663552 close_blk_665600) (chkN_join _ 667648 11 close_blk_667648 close_blk_669696))) (chkN_join _ 671744 13 (chkN_join _ 671744 12 (chkN_join _ 671744 11 close_blk_671744 close_blk_673792) (chkN_join _ 675840 11 close_blk_675840 close_blk_677888)) (chkN_join _ 679936 12 (chkN_join _ 679936 11 close_blk_679936 close_blk_681984) (chkN_join _ 684032 11 close_blk_684032 close_blk_686080))))
 end Demeter.TickClose
